@@ -79,6 +79,13 @@ def gen_case(rng, i, multi_every=6, share_every=4, shipped_every=3, n_samples=1,
             late = [{"k": "quantize"}, {"k": "add", "regex": ".*", "operation": rng.choice(ops), "cfg": None, "alg": "no_quantize"}]
     elif r < 0.11:
         late = [{"k": "policy", "file": "example_config_policy.json"}]   # a shipped custom policy replaces the default one
+    elif r < 0.19:
+        # calibrate once, then explore recipes with the same calibration result: the weight granularity (and width) configured when
+        # quantize() runs differs from the one in force while calibrating
+        grans = {c["cfg"]["weight"]["gran"] for c in cmds if c.get("cfg") and c["cfg"].get("weight") and c["cfg"].get("act") and c["alg"] == "min_max_uniform_quantize"}
+        pool = ["a8sw8t", "a8sw4t"] if "CHANNELWISE" in grans else (["a8w8", "a8w4", "a16w8"] if grans else ["a8sw8t", "a8w8", "a8sw4t", "a8w4", "a16w8"])
+        late = [{"k": "add", "regex": ".*", "operation": rng.choice(["*", "*", "FULLY_CONNECTED", "CONV_2D", "DEPTHWISE_CONV_2D"]),
+                 "cfg": pl.UNIFORM[rng.choice(pool)], "alg": "min_max_uniform_quantize"}]
     return Case(mb, info, cmds=cmds, data=data, late=late,
                 desc=[(c["regex"], c["operation"], c["alg"]) for c in cmds] + ([("late", c.get("k"), c.get("operation") or c.get("file")) for c in late] if late else []))
 
